@@ -54,6 +54,8 @@ pub fn index_render(cfg_json: &str, work_path: &path::Path) -> Result<String, St
     let ths = cfg.get_target_path_set();
     let index = core::Index::new(&cfg, &ths, work_path).map_err(|e| e.to_string())?;
     let tmp = work_path.join(".verif-render.dot");
+    // As in `index_edges`: render over an earlier, longer file.
+    let _ = std::fs::write(&tmp, "0 -> 0;\n".repeat(2048));
     index.dag.render_dotfile(&tmp).map_err(|e| e.to_string())?;
     let dot = std::fs::read_to_string(&tmp).map_err(|e| e.to_string())?;
     let _ = std::fs::remove_file(&tmp);
